@@ -124,9 +124,11 @@ def eq_terms(a: Term, b: Term):
         return None, f"not comparable: {type(e).__name__}"
 
 
-def eqv(got: Optional[Term], *wants: Term) -> Optional[bool]:
+def eqv(got: Optional[Term], *wants: Term, same: bool = False) -> Optional[bool]:
     """Tri-state equality of a term with any of the accepted forms: True (identical or provably equal), False (definitely a
-    different quantity than every accepted form), None (a form the rule cannot decide - never a violation)."""
+    different quantity than every accepted form), None (a form the rule cannot decide - never a violation).
+    same=True: the accepted forms are spellings of one quantity, so a definite difference from one of them is a definite
+    difference from all."""
     if got is None:
         return None
     got = canon(got)
@@ -140,7 +142,7 @@ def eqv(got: Optional[Term], *wants: Term) -> Optional[bool]:
         if ok:
             return True
         res.append(ok)
-    if res and all(r is False for r in res):
+    if res and (all(r is False for r in res) or (same and any(r is False for r in res))):
         return False
     return None
 
